@@ -27,6 +27,10 @@ enum T {
     Receiver { log: Log },
     /// answers a user timer with a state change and a message (for the on_timeout(User) case)
     Ticker { to: Id },
+    /// sends one message to each of two peers on start (sequencers 1 and 2 share one counter)
+    Fanout { b: Id, c: Id },
+    /// replies to every message without changing its state (a stateless responder)
+    Echo,
 }
 
 impl Actor for T {
@@ -41,6 +45,10 @@ impl Actor for T {
                 o.send(*to, 10 * i);
             }
         }
+        if let T::Fanout { b, c } = self {
+            o.send(*b, 10);
+            o.send(*c, 20);
+        }
         Vec::new()
     }
 
@@ -48,6 +56,9 @@ impl Actor for T {
         if let T::Receiver { log } = self {
             log.borrow_mut().push((src, msg));
             state.to_mut().push((src, msg));
+        }
+        if let T::Echo = self {
+            _o.send(src, msg + 1);
         }
     }
 
@@ -241,7 +252,54 @@ fn explore(ctx: &mut Ctx, k: u64, alphabet: &[Ev], max_len: usize) {
     }
 }
 
+/// Per-handler scenarios that the two-party schedules above cannot reach.
+fn extra(ctx: &mut Ctx) {
+    // (1) an Ack from one peer must not discard what is still pending for ANOTHER peer
+    let case = "fanout:ack-from-c-keeps-b-pending";
+    if ctx.want(case) {
+        let (b, c) = (Id::from(1usize), Id::from(2usize));
+        let w = ActorWrapper::with_default_timeout(T::Fanout { b, c });
+        let mut o: Out<W> = Out::new();
+        let s0 = w.on_start(Id::from(S), &mut o);
+        let first = (delivers_to(&o, b), delivers_to(&o, c));
+        let mut st = Cow::Borrowed(&s0);
+        let mut o2: Out<W> = Out::new();
+        w.on_msg(Id::from(S), &mut st, c, MsgWrapper::Ack(2), &mut o2);
+        let s1 = st.into_owned();
+        let mut st = Cow::Borrowed(&s1);
+        let mut o3: Out<W> = Out::new();
+        w.on_timeout(Id::from(S), &mut st, &TimerWrapper::Network, &mut o3);
+        let resent_b = delivers_to(&o3, b);
+        let resent_c = delivers_to(&o3, c);
+        let ok = first == (vec![(1, 10)], vec![(2, 20)]) && resent_b == vec![(1, 10)] && resent_c.is_empty();
+        ctx.check(case, "orl-ack-discards-other-peers-pending", &["ORL.on_msg.ensures.ack-state"], ok,
+            format!("first={:?} after Ack(2) from c the timeout resends to b: {:?}, to c: {:?}", first, resent_b, resent_c),
+            "Deliver(1,10) is still retransmitted to b; nothing for c".into());
+    }
+    // (2) a duplicate Deliver must not be handed over twice even when the wrapped actor only replies
+    //     (its state stays borrowed)
+    let case = "echo:duplicate-deliver-handed-once";
+    if ctx.want(case) {
+        let w = ActorWrapper::with_default_timeout(T::Echo);
+        let mut o: Out<W> = Out::new();
+        let s0 = w.on_start(Id::from(R), &mut o);
+        let mut st = Cow::Borrowed(&s0);
+        let mut o1: Out<W> = Out::new();
+        w.on_msg(Id::from(R), &mut st, Id::from(S), MsgWrapper::Deliver(1, 5), &mut o1);
+        let s1 = st.into_owned();
+        let mut st = Cow::Borrowed(&s1);
+        let mut o2: Out<W> = Out::new();
+        w.on_msg(Id::from(R), &mut st, Id::from(S), MsgWrapper::Deliver(1, 5), &mut o2);
+        let replies1 = delivers_to(&o1, Id::from(S));
+        let replies2 = delivers_to(&o2, Id::from(S));
+        let ok = replies1 == vec![(1, 6)] && replies2.is_empty();
+        ctx.check(case, "orl-message-handed-over-twice", &["ORL.on_msg.ensures.deliver-state"], ok,
+            format!("first delivery replies {:?}, duplicate replies {:?}", replies1, replies2), "one reply Deliver(1,6), then none (duplicate is only acknowledged)".into());
+    }
+}
+
 pub fn run(ctx: &mut Ctx) {
+    extra(ctx);
     // (the on_timeout(User) write-back case was removed: it is outside the wording of C16; see DESIGN.md, observation F-C16-2)
     // the whole story of F-C16-1: everything arrives in reverse order, then the acknowledgements arrive;
     // judged at the end only ("acked => handed over", "nothing pending => handed == sent")
